@@ -944,6 +944,8 @@ def cost(case):
     op = case['op']
     if op in ('matmul', 'imatmul', 'dot', 'pow', 'ipow'):
         return 40
+    if op == 'chain':
+        return 40 if case['args']['op2'] in ('matmul', 'dot', 'pow2') else 3
     return 1
 
 
